@@ -58,6 +58,8 @@ type cfgSpec struct {
 	// the world): the reload was rejected, so the From configuration must still be fully in force.
 	From    *fromSpec `json:"reloaded_from,omitempty"`
 	Refused bool      `json:"reload_refused,omitempty"`
+	// Lean: this world runs the quick-tier table (spellings, methods, credential classes) also in the thorough tier.
+	Lean bool `json:"quick_size_table,omitempty"`
 }
 
 func (c cfgSpec) label() string {
